@@ -4,6 +4,7 @@ import OjgVerif.Asm.LemmasNum
 import OjgVerif.Asm.LemmasPlan
 import OjgVerif.Asm.LemmasRerun
 import OjgVerif.Asm.LemmasTotal
+import OjgVerif.Asm.LemmasLayout
 import OjgVerif.Gen.AsmFacts
 /-! # C20 — assembly plans evaluate totally, deterministically and as documented
 
@@ -14,8 +15,9 @@ specification of `Asm/Spec.lean`. `Dev.current` is the code as it is (after the 
 refuted by a concrete witness for the code that shows it (`…_false`, marked "before <commit>" where a
 commit repaired it) and proved for the code that does not.
 
-1. source ties: the function registry, the recover wrapper of `Plan.Execute`, the dispatch shapes the
-   deviation flags stand for;
+1. source ties: the function registry equals the documented table; REGRESSION TRIPWIRES over the lines the
+   fix commits patched (`dev_current_source`, `execute_has_recover`): syntactic facts extracted from the
+   source that break the build when a patched line changes shape — they are not semantic proofs about Go;
 2. totality: no panic leaves `execute`; GENERAL (`execute_total`): every plan over the modelled functions
    that fits the fuel, has its literals in the plan's cells and never calls `equal`/`neq` returns nil or
    an error (or leaves the model / needs a map order) for every root and data — never out of fuel, never
@@ -62,7 +64,10 @@ theorem aliases_share_eval :
 /-- `Plan.Execute` runs under a deferred `recover()` -/
 theorem execute_has_recover : "Plan.Execute" ∈ Gen.AsmFacts.recoverEntryPoints := by decide
 
-/-- the deviation flags of `Dev.current` that can be read off the source are what the source shows:
+/-- REGRESSION TRIPWIRE, not a semantic proof: the extractor reads a few syntactic shapes off the lines the fix
+commits patched, and this theorem pins them to the flags of `Dev.current`; undoing a fix (or rewriting the
+line) breaks it and forces a re-examination. That the code BEHAVES as the flags say is decided by the
+correspondence run. The shapes:
 `lt lte gt gte` switch on the EVALUATED first argument (312106f), `evalArg` hands out a copy of a literal
 (52cf3c4), `quotient` tests its two float divisors for zero (e5d206a), the list clause of `evalValue` ends
 with a copy of the list (fb1d065 + 9281d31), the comparison functions call the exact helpers `cmpNum` /
@@ -81,19 +86,30 @@ theorem dev_current_source :
 /-- no deviation is left: the code as it is is the documented behaviour -/
 theorem current_is_documented : Dev.current = Dev.none := rfl
 
-/-! ## 2. totality -/
+/-! ## 2. totality
 
-/-- with the recover wrapper no panic leaves `Execute`, whatever the plan, root, heap, deviations, map
-order and fuel -/
+The headline is `execute_total` (below): the evaluation itself never faults — never out of fuel, never
+diverging — for every plan that fits (`Fit`: literals in the plan's cells, nesting within the fuel, no
+`equal`/`neq`, the one traversal that does not end on cyclic data), on a heap laid out as the driver lays
+it out (`PlanOrd`, `HeapHi`; checked on every case by `layoutOK`).
+
+The three facts that come first are facts about the MODEL OF THE RECOVER WRAPPER: `execute` is defined to
+turn a panic raised inside the evaluation into the outcome `err` when `hasRecover` is set (Model.lean,
+`execute`: "a panic inside Execute is turned into an error by the deferred recover" is modelled as
+such). They say that this definition leaves no way for the outcome `panic`, nothing more; that the real
+`Plan.Execute` has the deferred recover is the extracted fact `execute_has_recover`, and that no panic
+escapes the real `Execute` is decided by the run (every case under recover in a worker process). -/
+
+/-- model of the wrapper: with `hasRecover` the outcome `panic` cannot arise (by the definition of
+`execute`), whatever the plan, root, heap, deviations, map order and fuel -/
 theorem no_panic_escapes (env : Env) (fuel : Nat) (plan : Option Arg) (root : Val) (h : Heap) :
     (execute env true fuel plan root h).1 ≠ .panic := by
   unfold execute
   simp only
   split <;> simp
 
-/-- `Execute` ends in one of: nil, an error, or a stop of the model that is not a Go panic -/
-theorem outcome_total (env : Env) (fuel : Nat) (plan : Option Arg) (root : Val) (h : Heap)
-    (_wrapper : "Plan.Execute" ∈ Gen.AsmFacts.recoverEntryPoints) :
+/-- model of the wrapper: the outcome is nil, an error, or a stop of the model that is not a Go panic -/
+theorem outcome_total (env : Env) (fuel : Nat) (plan : Option Arg) (root : Val) (h : Heap) :
     (execute env true fuel plan root h).1 ∈ [Outcome.ok, .err, .diverge, .unmodelled, .enum, .fuel] := by
   have := no_panic_escapes env fuel plan root h
   cases ho : (execute env true fuel plan root h).1 <;> simp_all
@@ -129,7 +145,8 @@ theorem total_full_false : ¬ total_full := by
   revert this
   decide
 
-/-- what does hold: the only stop that is not completion, error or a limit of the model is `diverge` -/
+/-- model of the wrapper again (a corollary of `outcome_total`): if the outcome is not `diverge` it is one of
+the others. The substantive statement about `diverge` and `fuel` is `execute_total`. -/
 theorem total_partial (env : Env) (fuel : Nat) (plan : Option Arg) (root : Val) (h : Heap) :
     (execute env true fuel plan root h).1 ≠ .diverge →
     (execute env true fuel plan root h).1 ∈ [Outcome.ok, .err, .unmodelled, .enum, .fuel] := by
@@ -321,8 +338,11 @@ theorem rerun_cond_plan_untouched :
     run2.2.take 2 = condCounterHeap.take 2 := by decide
 
 /-- GENERAL: the plan is never edited. Split the heap at `k`: the plan's cells below, the data from `k` on,
-the data not referring to the plan (`HeapHi`), the root in the data. Then for EVERY plan (any functions,
-modelled or not, any literals), fuel and root, under the deviations of the code since 312106f, 52cf3c4
+the data not referring to the plan (`HeapHi`), the root in the data. Then for every plan over the MODELLED
+functions (any literals), fuel and root — a call of an unmodelled function is covered only in the
+trivial sense that the model stops there (`unmodelled`) with the heap as it is: nothing is claimed
+about what `sort`, `append`, … do to the plan (that is oracle (d)/(b) of the run) — under the
+deviations of the code since 312106f, 52cf3c4
 and 9281d31 (`Dev.copies`): after `Execute` every cell of the plan is what it was, and the data still
 does not refer to the plan — the invariant that makes a plan reusable. (Order: runs that need no map
 order; with `order_independent` every order.) -/
@@ -560,6 +580,26 @@ example : PlanOrd 2 condCounterHeap := by
   · rcases hv with hv | hv <;> subst hv
     · trivial
     · show 0 < 1; omega
+
+/-- the driver's check is sound: `layoutOK k h root plan` (evaluated on every case before every execution; a
+failure is reported as a disagreement) implies every hypothesis of `plan_cells_untouched`, `rerun_general`
+and `execute_total` about how the heap is laid out — only `Fit`'s two conditions on the plan itself
+(nesting within the fuel, no `equal`/`neq`) are not layout -/
+theorem layoutOK_sound (k : Nat) (h : Heap) (root : Val) (plan : Arg) (hok : layoutOK k h root (some plan) = true) :
+    k ≤ h.length ∧ HeapHi k h ∧ PlanOrd k h ∧ PlanClosed k h ∧ root.hi k ∧ ArgLo k plan := by
+  simp only [layoutOK, Bool.and_eq_true, decide_eq_true_eq] at hok
+  obtain ⟨⟨⟨hk, hl⟩, hr⟩, ha⟩ := hok
+  have hs := heapLayoutB_sound k h 0 hl
+  have hord : PlanOrd k h := fun i c hi hg => by simpa using (hs i c hg).1 (by omega)
+  refine ⟨hk, fun i c hi hg => (hs i c hg).2 (by omega), hord, ?_, hiB_sound hr, argLoB_sound k 400 plan ha⟩
+  intro i c hi hg
+  have hb := hord i c hi hg
+  cases c with
+  | arr xs => intro v hv; exact below_lo (hb v hv) (by omega)
+  | map kvs => intro kv hkv; exact below_lo (hb kv hkv) (by omega)
+
+/-- the check holds on the instance used above -/
+example : layoutOK 2 condCounterHeap (.mref 2) (some condCounterPlan) = true := by decide
 
 /-! ## 4. documented results -/
 
